@@ -106,6 +106,18 @@ func (w *Workspace) WritePackage(p *schema.Package, st schema.Style) error {
 	return nil
 }
 
+// RewriteSources overwrites the schema sources of a package and leaves everything else in its
+// directory (in particular the output of an earlier generator run) in place.
+func (w *Workspace) RewriteSources(p *schema.Package, st schema.Style) error {
+	dir := filepath.Join(w.Dir, p.ID)
+	for _, f := range p.Files {
+		if err := os.WriteFile(filepath.Join(dir, f.Name), []byte(schema.Render(f, st)), 0o644); err != nil {
+			return err
+		}
+	}
+	return nil
+}
+
 type genResult struct {
 	Out      string
 	Exit     int
